@@ -168,6 +168,26 @@ def run(F, ck, tier):
                'for schedules whose layers have different arities the tree heights of the later layers are wrong and decompression yields other Merkle paths than were compressed') if cums else
               'CompressedFriProof::decompress no longer derives the per-layer heights from reduction_arity_bits in a recognisable form', cums[0][0].get('s') if cums else '%s:%d' % (dc[0].file, dc[0].line))
     uniform_arity(F, ck, 'R16.3')
+    # the schedule may be EMPTY (small circuits have no reduction step): indexing it with a literal panics for those circuits
+    nlit, nvar = 0, 0
+    for fn in sorted(F.fns.values(), key=lambda f: f.qual):
+        if fn.crate != 'plonky2' or fn.body is None:
+            continue
+        for x in walk(fn.body):
+            if x.get('k') != 'Index':
+                continue
+            b_ = x['e']
+            while b_.get('k') in ('Ref', 'Un'):
+                b_ = b_['e']
+            if b_.get('k') in ('Field', 'Local') and b_.get('n') == 'reduction_arity_bits':
+                if x['i'].get('k') == 'Lit':
+                    nlit += 1
+                    ck.ob('R16.3', 'literal-index:%s' % fn.qual, False, '%s indexes the FRI arity schedule with the literal %s: the schedule is empty for circuits without a reduction step (degree_bits <= 5 under the default strategy, Fixed(vec![])), '
+                          'for which this panics on every proof' % (fn.qual, x['i'].get('v')), x.get('s'))
+                else:
+                    nvar += 1
+    ck.ob('R16.3', 'literal-index:none', nlit == 0, 'the schedule is only indexed by loop variables (%d sites)' % nvar if nlit == 0 else '%d literal indexings' % nlit)
+    ck.floor('R16.3', 'variable indexings of the arity schedule (the matcher sees its positive examples)', nvar, 4)
     # R16.4
     a = F.one('fri::verifier::fri_verifier_query_round', crate='plonky2')
     b = [f for f in F.find('CompressedProofWithPublicInputs::get_inferred_elements', crate='plonky2')]
